@@ -1,6 +1,7 @@
 package server
 
 import (
+	"encoding/json"
 	"context"
 	"math"
 
@@ -77,10 +78,14 @@ func VerifC15Service() {
 	nowSec := nowT.Unix() // the same expression the handler computes
 	// pre-state: gc_worker (always infinite) and up to two other services, saved through the real API
 	pre := make([]vrfEntry, 4)
-	if v.Choice("hasGCWorker", 2) == 1 {
+	legacy := v.Param("legacy", 0) == 1 // separate entry: gc_worker stored as a legacy record with a finite expiry
+	if legacy || v.Choice("hasGCWorker", 2) == 1 {
 		pre[0] = vrfEntry{true, v.Uint64("sp0"), math.MaxInt64}
 	}
 	for i := 1; i <= 2; i++ {
+		if legacy && i == 2 {
+			break // the legacy entry keeps one other registration (stated bound)
+		}
 		if v.Choice("has", 2) == 1 {
 			pre[i] = vrfEntry{true, v.Uint64("sp"), v.Int64("exp")}
 		}
@@ -88,7 +93,19 @@ func VerifC15Service() {
 	for i, e := range pre {
 		if e.present {
 			v.Assume(e.safePoint < math.MaxUint64) // MaxUint64 is the code's "none" marker (stated bound)
-			err := s.storage.SaveServiceGCSafePoint(&core.ServiceSafePoint{ServiceID: vrfServiceIDs[i], SafePoint: e.safePoint, ExpiredAt: e.expiredAt})
+			ssp := &core.ServiceSafePoint{ServiceID: vrfServiceIDs[i], SafePoint: e.safePoint, ExpiredAt: e.expiredAt}
+			var err error
+			if i == 0 && legacy {
+				// a gc_worker record left by an older version with a finite (possibly elapsed) expiry:
+				// the statement gives gc_worker an unlimited lifetime, so the oracle keeps treating it
+				// as live and the code has to repair it. Written below the API, which refuses it.
+				ssp.ExpiredAt = v.Int64("exp0")
+				val, _ := json.Marshal(ssp)
+				err = s.storage.Save("gc/safe_point/service/gc_worker", string(val))
+				v.Reach("legacy-gc-worker")
+			} else {
+				err = s.storage.SaveServiceGCSafePoint(ssp)
+			}
 			if err != nil {
 				v.Assume(false)
 			}
@@ -146,6 +163,11 @@ func VerifC15Service() {
 	v.Assert("gc-worker-exists", post[0].present)
 	if post[0].present {
 		v.Assert("gc-worker-unlimited", post[0].expiredAt == math.MaxInt64)
+	}
+	// a request of another service neither moves nor hides gc_worker's own safe point
+	if pre[0].present && which != 0 {
+		v.Assert("gc-worker-safe-point-kept", post[0].present && post[0].safePoint == pre[0].safePoint)
+		v.Assert("min-not-above-gc-worker", resp.MinSafePoint <= pre[0].safePoint)
 	}
 	// the reported minimum is not above any live registration
 	for i, e := range post {
